@@ -179,7 +179,32 @@ impl StorageEngine {
     fn get_shard(&self, db: DatabaseIndex, key: &[u8]) -> Result<&Arc<RwLock<DatabaseShard>>> {
         let database = self.databases.get(db).ok_or(StorageError::InvalidDatabase)?;
         let shard_idx = self.get_shard_index(key);
-        Ok(&database.shards[shard_idx])
+        let shard = &database.shards[shard_idx];
+        self.purge_if_expired(shard, key);
+        Ok(shard)
+    }
+    
+    /// Lazy expiry for every command: a key whose deadline has passed is removed before the
+    /// operation looks at the shard, so it is absent whether or not the sweeper has run yet
+    fn purge_if_expired(&self, shard: &Arc<RwLock<DatabaseShard>>, key: &[u8]) {
+        let expired = {
+            let shard_guard = shard.read().unwrap();
+            shard_guard.data.get(key).map_or(false, |stored_value| stored_value.is_expired())
+        };
+        
+        if expired {
+            let mut shard_guard = shard.write().unwrap();
+            // Re-check under the write lock: the key may have been replaced meanwhile
+            if shard_guard.data.get(key).map_or(false, |stored_value| stored_value.is_expired()) {
+                if let Some(stored_value) = shard_guard.data.remove(key) {
+                    shard_guard.expiring_keys.remove(key);
+                    shard_guard.mark_modified(key);
+                    
+                    let memory_size = self.calculate_value_size(key, &stored_value.value);
+                    self.memory_manager.remove_memory(memory_size);
+                }
+            }
+        }
     }
     
     /// Set a string value
@@ -440,8 +465,11 @@ impl StorageEngine {
         // Collect keys from all shards
         for shard in &database.shards {
             let shard_guard = shard.read().unwrap();
-            for key in shard_guard.data.keys() {
-                all_keys.push(key.clone());
+            for (key, stored_value) in shard_guard.data.iter() {
+                // Expired keys that the sweeper has not removed yet do not exist
+                if !stored_value.is_expired() {
+                    all_keys.push(key.clone());
+                }
             }
         }
         
@@ -2063,8 +2091,8 @@ impl StorageEngine {
         // Collect keys from all shards
         for shard in &database.shards {
             let shard_guard = shard.read().unwrap();
-            for key in shard_guard.data.keys() {
-                if pattern_matches(pattern, key) {
+            for (key, stored_value) in shard_guard.data.iter() {
+                if !stored_value.is_expired() && pattern_matches(pattern, key) {
                     matching_keys.push(key.clone());
                 }
             }
